@@ -1,4 +1,6 @@
 import RsslVerif.Lemmas.MetaText
+import RsslVerif.Lemmas.Meta
+import RsslVerif.Lemmas.MetaReach
 /-!
 # C05 — reflection metadata agrees with the emitted source
 
@@ -9,6 +11,7 @@ back ends) on top of `Model.Slots.assign` (C06), instantiated with the tables re
 namespace RsslVerif.Thm.C05
 open RsslVerif.Gen.SlotTables RsslVerif.Gen.MetaTables RsslVerif.Gen.CompileTables
 open RsslVerif.Model.Slots RsslVerif.Model.Meta RsslVerif.Spec.Meta RsslVerif.Lemmas.Meta
+open RsslVerif.Lemmas.Slots (ParamsOk paramsFor_ok)
 
 /-! ## Ties to the source -/
 
@@ -258,6 +261,115 @@ theorem descriptor_kind_count {k : Option ObjKind} {arr : Arr}
       obtain ⟨_, rfl⟩ := h1
       obtain ⟨_, rfl⟩ := h2
       exact ⟨rfl, rfl, rfl⟩
+
+
+/-! ## meta_bijective -/
+
+/-- HLSL: in every bind group the metadata entries are exactly the externally bound declarations of that
+    group — same number, same names, same (declaration) order; groups beyond the vector have no bound
+    declaration.  "Externally bound" is C06's `bound`: cbuffers and object-typed globals. -/
+theorem meta_bijective_hlsl {p : Params} (hp : ParamsOk p) {dflt : Nat} {ds : List MDecl} {groups : List Group}
+    (h : hlslMeta p dflt ds = .ok groups) (g : Nat) :
+    (bindingsAt groups g).map (·.name) = boundNames p dflt g ds := by
+  unfold hlslMeta at h
+  split at h
+  · cases h
+  · rename_i res hres
+    split at h
+    · cases h
+    · rename_i evs hev
+      have hag := RsslVerif.Thm.C06.binding_complete hp hres
+      rw [bindingsAt_setInlines h g, bindingsAt_registerAll, bindingsAt_nil, List.nil_append, List.map_map]
+      exact events_names (fun _ => hlslEvent_ok) g ds res.bindings 0 evs hag hev
+
+/-- Metal: the same, up to the per-group sort by slot (a permutation; see `msl_sort_keeps_sorted`). -/
+theorem meta_bijective_msl {p : Params} (hp : ParamsOk p) {dflt : Nat} {usedAt : Nat → Bool} {ds : List MDecl}
+    {groups : List Group} (h : mslMeta p dflt usedAt ds = .ok groups) (g : Nat) :
+    ((bindingsAt groups g).map (·.name)).Perm (boundNames p dflt g ds) := by
+  unfold mslMeta at h
+  split at h
+  · cases h
+  · rename_i res hres
+    split at h
+    · cases h
+    · rename_i evs hev
+      have hag := RsslVerif.Thm.C06.binding_complete hp hres
+      simp only at h
+      split at h
+      · cases h
+      · obtain ⟨_, hperm⟩ := sortGroups_at h
+        have hn := events_names (fun i => mslEvent_ok (usedAt i)) g ds res.bindings 0 evs hag hev
+        have := (hperm g).map (·.name)
+        rw [bindingsAt_registerAll, bindingsAt_nil, List.nil_append, List.map_map] at this
+        rw [← hn]
+        exact this
+
+/-- the Metal sort does not reorder a group whose slots are already non-decreasing (which C06's
+    `index_ranges_tile` guarantees for the allocator's output) -/
+theorem msl_sort_keeps_sorted (ks : List (Nat × Entry)) (h : ks.Pairwise (fun a b => a.1 ≤ b.1)) :
+    sortKeyed ks = ks := sortKeyed_sorted ks h
+
+/-- who is excluded on both sides: non-definitions, non-object globals, unsized arrays (the allocator
+    does not look through them), and static samplers on Metal (implemented in source there). -/
+theorem excluded_declarations (p : Params) (n : String) (s : Option Nat) (ss bl : Bool) (k : Option ObjKind)
+    (arr : Arr) (st : Storage) :
+    externallyBound p .other = false ∧
+    externallyBound p (.global n s ss none arr bl st) = false ∧
+    externallyBound p (.global n s ss k .unsized bl st) = false ∧
+    externallyBound (paramsFor .Msl false) (.global n s true k arr bl st) = false ∧
+    externallyBound p (.cbuffer n s) = true := by
+  refine ⟨rfl, ?_, ?_, ?_, rfl⟩
+  · cases arr <;> simp [externallyBound, MDecl.toSlot, RsslVerif.Spec.Slots.bound]
+  · simp [externallyBound, MDecl.toSlot, RsslVerif.Spec.Slots.bound]
+  · cases arr <;> cases k <;> simp [externallyBound, MDecl.toSlot, RsslVerif.Spec.Slots.bound, paramsFor]
+
+/-! ## used_sound_complete -/
+
+open RsslVerif.Model.MetaReach RsslVerif.Lemmas.MetaReach in
+/-- Metal: when the usage fixed point loop terminates (fuel not exhausted), a binding is marked used iff
+    some stage entry point reaches the global through the call graph.  `_partial`: termination of the loop
+    itself (fuel sufficiency) is not proved here; every other step is. -/
+theorem used_sound_complete_partial {direct : Nat → List Sym} {keys entries : List Nat} {fuel : Nat}
+    {req : Nat → List Sym} (hk : ∀ f ∈ keys, ∀ h, Sym.fn h ∈ direct f → h ∈ keys)
+    (he : ∀ e ∈ entries, e ∈ keys) (h : recurse fuel keys direct = some req) (g : Nat) :
+    usedBy req entries g = true ↔ ∃ e ∈ entries, Reach direct e (.glob g) := by
+  have hr := recurse_is_reach hk h
+  simp only [usedBy, List.any_eq_true, List.contains_iff_mem]
+  constructor
+  · rintro ⟨e, hem, hm⟩; exact ⟨e, hem, (hr e (he e hem) _).1 hm⟩
+  · rintro ⟨e, hem, hm⟩; exact ⟨e, hem, (hr e (he e hem) _).2 hm⟩
+
+/-- the `is_used` flag of an entry: always true on HLSL (so a reachable binding is never reported unused),
+    the membership test on Metal -/
+theorem used_flag {u : Bool} {d : MDecl} {ob : Option Binding} {g : Nat} {e : Entry} :
+    (hlslEvent d ob = .ok (some (g, e)) → e.used = true) ∧
+    (mslEvent u d ob = .ok (some (g, e)) → e.used = u) := by
+  constructor
+  · intro h
+    cases d with
+    | other => simp [hlslEvent] at h
+    | cbuffer n s => cases ob <;> simp [hlslEvent] at h; obtain ⟨_, rfl⟩ := h; rfl
+    | global n s ss k arr bl st =>
+      simp only [hlslEvent] at h
+      split at h
+      · cases h
+      · cases ob <;> simp at h; obtain ⟨_, rfl⟩ := h; rfl
+  · intro h
+    cases d with
+    | other => simp [mslEvent] at h
+    | cbuffer n s =>
+      cases ob with
+      | none => simp [mslEvent] at h
+      | some b =>
+        simp only [mslEvent] at h
+        split at h
+        · cases h
+        · simp at h; obtain ⟨_, rfl⟩ := h; rfl
+    | global n s ss k arr bl st =>
+      simp only [mslEvent] at h
+      split at h
+      · cases h
+      · cases ob <;> simp at h; obtain ⟨_, rfl⟩ := h; rfl
 
 /-! ## entry_named_and_defined -/
 
